@@ -157,6 +157,10 @@ func doInitExtensions(domain string, agentPaths []string, execCtx *rapidContext,
 		}
 		agentName := fmt.Sprintf("extension-%s-%d", path.Base(agentPath), execCtx.runtimeDomainGeneration)
 
+		// The exit channel must exist before the process does: a process that exits right
+		// away may be reported by the events watcher before Exec() has even returned.
+		execCtx.shutdownContext.createExitedChannel(agentName)
+
 		err = execCtx.supervisor.Exec(context.Background(), &supvmodel.ExecRequest{
 			Domain: domain,
 			Name:   agentName,
@@ -174,11 +178,10 @@ func doInitExtensions(domain string, agentPaths []string, execCtx *rapidContext,
 			StderrWriter: agentStderrWriter,
 		})
 		if err != nil {
+			execCtx.shutdownContext.removeExitedChannel(agentName)
 			agentLaunchError(agent, execCtx.appCtx, err)
 			return err
 		}
-
-		execCtx.shutdownContext.createExitedChannel(agentName)
 	}
 
 	if err := initFlow.AwaitExternalAgentsRegistered(); err != nil {
@@ -356,6 +359,9 @@ func doRuntimeDomainInit(execCtx *rapidContext, sbInfoFromInit interop.SandboxIn
 	checkCredentials(execCtx, bootstrapEnv)
 	name := fmt.Sprintf("%s-%d", runtimeProcessName, execCtx.runtimeDomainGeneration)
 
+	// see doInitExtensions: the exit channel must exist before the process does
+	execCtx.shutdownContext.createExitedChannel(name)
+
 	err = execCtx.supervisor.Exec(context.Background(), &supvmodel.ExecRequest{
 		Domain: RuntimeDomain,
 		Name:   name,
@@ -384,6 +390,7 @@ func doRuntimeDomainInit(execCtx *rapidContext, sbInfoFromInit interop.SandboxIn
 	}()
 
 	if err != nil {
+		execCtx.shutdownContext.removeExitedChannel(name)
 		if fatalError, formattedLog, hasError := sbInfoFromInit.RuntimeBootstrap.CachedFatalError(err); hasError {
 			appctx.StoreFirstFatalError(execCtx.appCtx, fatalError)
 			execCtx.eventsAPI.SendImageErrorLog(interop.ImageErrorLogData(formattedLog))
@@ -394,8 +401,6 @@ func doRuntimeDomainInit(execCtx *rapidContext, sbInfoFromInit interop.SandboxIn
 		runtimeDoneStatus = telemetry.RuntimeDoneError
 		return err
 	}
-
-	execCtx.shutdownContext.createExitedChannel(name)
 
 	if err := initFlow.AwaitRuntimeRestoreReady(); err != nil {
 		runtimeDoneStatus = telemetry.RuntimeDoneError
